@@ -169,8 +169,11 @@ theorem expand_list_shapes :
 `canon*` what a re-parse returns: the identity except that a one-term Conjunction object comes
 back as its bare term.  `wf*` states what the constructors guarantee (distinct upper-case feature
 names, non-empty conjunctions, a dotted list has items and its end is not a list-type name).
-Fuel is the recursion budget of the model parser: "for all sufficiently large fuel"; running out
-of fuel is a distinct error (`Err.fuel`) that the correspondence run would report. -/
+Fuel is the recursion budget of the model parser; every theorem gives an explicit sufficient bound,
+linear in the number of tokens written (`6·|tokens|+2` for a value, `6·|tokens|` for the definitions
+of a file), and `parse_file` is stated for the fuel the driver really uses (`parseFile`: item budget
+`|tokens|+1`, definition fuel `6·|tokens|+10`).  Running out of fuel is a distinct error
+(`Err.fuel`), so an insufficient budget could never be mistaken for a parse result. -/
 
 /-- "Formatting any TDL entity ... whose bodies nest conjunctions, feature structures with dotted
 paths, cons and diff lists (open, closed, dotted), coreferences, strings, regexes and documentation
@@ -179,14 +182,14 @@ value `v` (arbitrary nesting of conjunctions, AVMs with folded dotted paths, con
 open / dotted / empty, diff lists, leaves, each with or without docstring), the parser run on
 `toksVal v ++ rest` returns exactly `canonVal v` and exactly `rest`, for every `rest` that does not
 start with `&`. -/
-theorem parse_toks_value (v : Val) (hw : wfVal v = true) :
-    ∃ n0, ∀ n, n0 ≤ n → ∀ rest, noAmp rest → parseConj n (toksVal v ++ rest) = .ok (canonVal v, rest) :=
-  parseConj_toksVal v hw
+theorem parse_toks_value (v : Val) (hw : wfVal v = true) (n : Nat) (hn : 6 * (toksVal v).length + 2 ≤ n)
+    (rest : List Tok) (hr : noAmp rest) : parseConj n (toksVal v ++ rest) = .ok (canonVal v, rest) :=
+  parseConj_toksVal v hw n hn rest hr
 
 /-- the same for a single term, with no condition on what follows. -/
-theorem parse_toks_term (t : Term) (hw : wfTerm t = true) :
-    ∃ n0, ∀ n, n0 ≤ n → ∀ rest, parseTerm n (toksTerm t ++ rest) = .ok (canonTerm t, rest) :=
-  parseTerm_toksTerm t hw
+theorem parse_toks_term (t : Term) (hw : wfTerm t = true) (n : Nat) (hn : 6 * (toksTerm t).length + 1 ≤ n)
+    (rest : List Tok) : parseTerm n (toksTerm t ++ rest) = .ok (canonTerm t, rest) :=
+  parseTerm_toksTerm t hw n hn rest
 
 /-- "letter sets, wild cards" (character level, after the repair of F45): the formatter's escaped
 character list is read back by `_parse_letterset` as exactly the characters — including `)`,
@@ -207,10 +210,16 @@ has a status) whose `:begin`/`:end` items are properly nested from the state `cu
 (`envOK`) is parsed back, item by item, to `canonItem` of each item.  With `cur = none`,
 `stack = []` this is a whole file. -/
 theorem parse_toks_file (xs : List Item) (cur : Option Bool) (stack : List (Option Bool))
-    (hw : ∀ x ∈ xs, wfItem x = true) (henv : envOK cur stack xs = true) :
-    ∃ n0 m0, ∀ n m, n0 ≤ n → m0 ≤ m →
-      parseItems n m cur stack (xs.flatMap toksItem) = .ok (xs.map canonItem) :=
-  parseItems_toks xs cur stack hw henv
+    (hw : ∀ x ∈ xs, wfItem x = true) (henv : envOK cur stack xs = true) (n m : Nat)
+    (hn : xs.length ≤ n) (hm : 6 * (xs.flatMap toksItem).length ≤ m) :
+    parseItems n m cur stack (xs.flatMap toksItem) = .ok (xs.map canonItem) :=
+  parseItems_toks xs cur stack hw henv n m hn hm
+
+/-- the same for the parser entry point the driver runs, with the fuel it really uses: a whole
+file of well-formed items with properly nested environments is read back as its canonical items. -/
+theorem parse_file (xs : List Item) (hw : ∀ x ∈ xs, wfItem x = true) (henv : envOK none [] xs = true) :
+    parseFile (xs.flatMap toksItem) = .ok (xs.map canonItem) :=
+  parseFile_toks xs hw henv
 
 /-- the hypotheses are satisfiable and the result is not vacuous: an instance environment holding
 `t := s & [ A.B < #x, "q" . #y > ] """d""".` -/
@@ -239,15 +248,17 @@ theorem second_format_item (x : Item) (hc : ∀ ts, x.terms? = some ts → clean
   cases x <;> simp_all [canonItem, toksItem, Item.terms?, toksTerms_canon]
 
 /-- ... and therefore parsing the second text gives the same value again. -/
-theorem parse_second_format (v : Val) (hw : wfVal v = true) (hc : cleanVal v = true) :
-    ∃ n0, ∀ n, n0 ≤ n → ∀ rest, noAmp rest →
-      parseConj n (toksVal (canonVal v) ++ rest) = .ok (canonVal v, rest) := by
-  rw [toksVal_canon v hc]; exact parseConj_toksVal v hw
+theorem parse_second_format (v : Val) (hw : wfVal v = true) (hc : cleanVal v = true) (n : Nat)
+    (hn : 6 * (toksVal v).length + 2 ≤ n) (rest : List Tok) (hr : noAmp rest) :
+    parseConj n (toksVal (canonVal v) ++ rest) = .ok (canonVal v, rest) := by
+  rw [toksVal_canon v hc]; exact parseConj_toksVal v hw n hn rest hr
 
 -- FULL STATEMENT (not proved), what is left of the property beyond the theorems above:
--- * `parseFile` uses the concrete fuel `6·|tokens|+10`; the theorems say "for all sufficiently large
---   fuel" and do not bound `n0` (running out of fuel is the distinct error `Err.fuel`, never seen in
---   the correspondence run).
+-- * fuel: the round-trip theorems carry explicit sufficient bounds and `parse_file` is about the driver's
+--   own fuel, so nothing about fuel is left for formatted input.  NOT proved: that the same budget
+--   suffices on ARBITRARY token lists (the malformed streams of the `toks` correspondence cases) and
+--   that a non-fuel result is independent of the fuel; there an exhausted budget would show up as the
+--   distinct answer `fuel`, which no run has produced.
 -- * text level: `lex (formatText x) = toks (layout x)` — that the formatter's line breaks and
 --   indentation only insert white space between tokens, and that the regex lexer returns the
 --   string/regex/identifier tokens — is compared on every generated entity, not proved
